@@ -50,9 +50,10 @@ def rule_schema():
     return _RULE_SCHEMA
 
 
-def _depth_single(d1: int, w0: int, wk: int, dirkind: int, dirlevel: int, v: bool, b2: int, limit: int, vm: int = 0) -> bool:
+def _depth_single(d1: int, w0: int, wk: int, dirkind: int, dirlevel: int, v: bool, b2: int, limit: int, vm: int = 0, hist: int = 0) -> bool:
     """
     pre: 0 <= d1 <= DMAX and 0 <= w0 <= 2 and 0 <= wk <= 2 and 0 <= vm <= 3
+    pre: 0 <= hist <= 3 and (hist == 0 or (dirkind > 0 and vm == 0 and (thorough() or (b2 == 0 and hist == 1 and 0 <= limit <= 2))))
     pre: vm == 0 or (dirkind > 0 and (thorough() or b2 == 0))
     pre: 0 <= dirkind <= 2 and 0 <= dirlevel <= d1
     pre: 0 <= b2 <= 24
@@ -71,6 +72,7 @@ def _depth_single(d1: int, w0: int, wk: int, dirkind: int, dirlevel: int, v: boo
     V = True if v else False
     B2 = concrete_int(b2, 0, 24)
     VM = concrete_int(vm, 0, 3)
+    HIST = concrete_int(hist, 0, 3)
     with untraced():
         frags = []
         sels = [chain_text(D1, W0, WK, DK, DL, "a", frags, "x")]
@@ -87,6 +89,14 @@ def _depth_single(d1: int, w0: int, wk: int, dirkind: int, dirlevel: int, v: boo
         doc = parse(src)
         exp_depth = max(always + [0])
         rule = MaxDepthValidationRule(limit)
+        # history of the RULE OBJECT (one instance is configured once and used for every request): 1 = the same parsed document was checked before with the
+        # other value of $v, 2 = ... with the same value, 3 = another document was checked before
+        if HIST == 1:
+            rule(rule_schema(), doc, {"v": not V})
+        elif HIST == 2:
+            rule(rule_schema(), doc, {"v": V})
+        elif HIST == 3:
+            rule(rule_schema(), parse("query Q($v: Boolean) { a { b { c { d { e } } } } keep @skip(if: $v) }"), {"v": V})
         errors = rule(rule_schema(), doc, {"v": V} if VM == 0 else ({"v": None} if VM == 3 else {}))
         if VM >= 2:
             # the directive has no usable value: the operation cannot be executed; the rule must still answer (a list), whatever it says
@@ -215,10 +225,10 @@ CONDITIONS = [
     Cond(
         name="depth_single", fn=_depth_single, quick=170, thorough=600, per_path=30, shards_quick=16, shards_thorough=16,
         bound="one operation: chain of depth <= 2 (thorough 3) with top level and deeper levels plain / inline fragment / named fragment, "
-              "@skip/@include(if: $v) at any level, $v true/false given in the request or through the declaration's default (or missing / null: the rule must still return a list), optional second branch (depth 0..3, 3 wraps, same or other response key), every limit in -1..4 (solver-chosen, concrete after decoding; the symbolic limit is in depth_ops)",
+              "@skip/@include(if: $v) at any level, $v true/false given in the request or through the declaration's default (or missing / null: the rule must still return a list), optional second branch (depth 0..3, 3 wraps, same or other response key), x history of the rule OBJECT (fresh / the same parsed document checked before with the other or the same value of $v / another document checked before), every limit in -1..4 (solver-chosen, concrete after decoding; the symbolic limit is in depth_ops)",
         symbolic={"limit": "choice: the depth limit", "v": "data: variable value", "d1,w0,wk,dirkind,dirlevel,b2": "choice: document shape"},
         assumptions=["oracle: depth = nesting levels below the root fields along the longest selected path (class docstring example = 4)"],
-        witness={"d1": 2, "w0": 1, "wk": 2, "dirkind": 0, "dirlevel": 0, "v": False, "b2": 0, "limit": 1, "vm": 0},
+        witness={"d1": 2, "w0": 1, "wk": 2, "dirkind": 0, "dirlevel": 0, "v": False, "b2": 0, "limit": 1, "vm": 0, "hist": 0},
     ),
     Cond(
         name="depth_ops", fn=_depth_ops, quick=100, thorough=300, per_path=30, shards_quick=16, shards_thorough=16,
